@@ -74,13 +74,11 @@ def splitHeader (data : Str) : Option (Str × Str) :=
   | none => none
   | some (a, b) => if (splitColonNl b []).isSome then none else some (a, b)
 
-/-- `load_operator(file_name, data_directory, plain_text)`: class and terms of the result -/
-def load (tol : Rat) (nt : NumTables) (fs : FS) (fileName dir : Str) (plainText : Bool) :
-    Except Err (Cls × Op) := do
-  let path ← getFilePath fileName dir
-  match fsGet fs path with
-  | none => .error .fileNotFound
-  | some (.text data) =>
+/-- what `load_operator` makes of the content of a file, read in the requested format -/
+def loadContent (tol : Rat) (nt : NumTables) (content : FileContent) (plainText : Bool) :
+    Except Err (Cls × Op) :=
+  match content with
+  | .text data =>
     if !plainText then .error .badFormat else
     match splitHeader data with
     | none => .error .badFormat
@@ -94,12 +92,20 @@ def load (tol : Rat) (nt : NumTables) (fs : FS) (fileName dir : Str) (plainText 
         else match initFromString cls nt terms with
           | none => .error .valueError
           | some op => .ok (cls, op)
-  | some (.binary tn terms) =>
+  | .binary tn terms =>
     if plainText then .error .badFormat else
     match clsOfTypeName tn with
     | none => .error .typeError
     | some cls =>
       .ok (cls, terms.foldl (fun acc (e : Term × GQ) => iadd tol acc (mk cls e.1 e.2)) [])
+
+/-- `load_operator(file_name, data_directory, plain_text)`: class and terms of the result -/
+def load (tol : Rat) (nt : NumTables) (fs : FS) (fileName dir : Str) (plainText : Bool) :
+    Except Err (Cls × Op) := do
+  let path ← getFilePath fileName dir
+  match fsGet fs path with
+  | none => .error .fileNotFound
+  | some content => loadContent tol nt content plainText
 
 end C20
 end Model
